@@ -5,3 +5,14 @@ claim("C03",
       "over points and the default discharge curve = factor*charging curve; plus an exhaustive grid sweep lifted by "
       "forallb_forall. The model is checked against /repo by exact correspondence on random and malformed curves.",
       TB + AX_R, "Coq proof over hand model + exact differential correspondence", "5.3")
+claim("C20",
+      "Axiom-free theorems over the model of assign_vehicle_id for ALL trip tables and standing times: trips of one vehicle are "
+      "separated by more than the minimum standing time (no overlap), a vehicle serves only its own type, a new vehicle is "
+      "created only when every vehicle of that type is still busy, one id per trip; first-match selection in idle order. "
+      "The upstream revision is refuted by two vm_compute witnesses (D3a, D3b; both repaired by fix: commits). Model tied to "
+      "/repo by exact correspondence on random trip tables.",
+      "Trusted: Coq kernel + VM; correspondence harness; datetime parsing and timedelta(hours=float) rounding are glue (standing "
+      "times enter the model as integer microseconds computed by the harness's own formula). No axioms. Partial: that the idle "
+      "list is ordered by availability time (the 'idle longest' reading of FIFO) is checked on every generated table by the "
+      "Python predicate, not proved.",
+      "Coq proof (invariant by induction over trips) + exact differential correspondence", "5.20")
